@@ -657,20 +657,38 @@ theorem ctxOfPairs_keys (ps : List (List Char × DTValue)) (k' : List Char) :
 
 /-! ## Default output -/
 
-theorem flattenCells_length_one (cs : List Cell) (h : (flattenCells cs).length = 1) :
-    ∃ c ∈ cs, c.values.length = 1 := by
-  induction cs with
-  | nil => simp [flattenCells] at h
-  | cons c cs ih =>
-    rw [flattenCells_eq] at h
-    simp only [List.flatMap_cons, List.length_append] at h
-    rw [← flattenCells_eq] at h
-    by_cases hc : c.values.length = 1
-    · exact ⟨c, by simp, hc⟩
-    · by_cases h0 : c.values.length = 0
-      · obtain ⟨c', hc', h'⟩ := ih (by omega)
-        exact ⟨c', by simp [hc'], h'⟩
-      · omega
+theorem defaultLoop_eq (ns : List (List Char)) (ds : List (Option DTValue)) (acc : List (List Char × DTValue)) :
+    defaultLoop ns ds acc =
+      (ns.zip (ds.map (·.getD .null))).foldl (fun acc p => ctxInsert p.1 p.2 acc) acc := by
+  induction ns generalizing ds acc with
+  | nil => simp [defaultLoop]
+  | cons n ns ih =>
+    cases ds with
+    | nil => simp [defaultLoop]
+    | cons d ds => simp [defaultLoop, ih]
+
+/-- The default output of the code is the specified default, for every table. -/
+theorem defaultOutput_eq' (names : List (List Char)) (ov : List DTValue) (rs : List ERule) :
+    ∀ ds : List (Option DTValue), defaultOutput ⟨names, ov, ds, rs⟩ = Spec.defaultOf names ds := by
+  intro ds
+  simp only [defaultOutput, Spec.defaultOf]
+  have hall : (ds.all fun d => decide (d = none)) = ds.all (·.isNone) := by
+    congr 1; funext d; cases d <;> simp
+  match ds with
+  | [] => simp
+  | [d] => cases d <;> simp
+  | d :: d' :: rest =>
+    simp only [hall]
+    by_cases hn : ((d :: d' :: rest).all (·.isNone)) = true
+    · simp [hn]
+    · simp only [hn, if_false, List.length_cons, gt_iff_lt, Nat.lt_add_left_iff_pos, Nat.zero_lt_succ,
+        if_true, ne_eq]
+      by_cases hl : rest.length + 1 + 1 = names.length
+      · simp [hl, defaultLoop_eq, Spec.ctxOfPairs]
+      · simp [hl]
+
+theorem defaultOutput_eq (t : Table) : defaultOutput (evalTable t) = Spec.default t :=
+  defaultOutput_eq' _ _ _ _
 
 open Spec in
 theorem ms_outputs_ne {t : Table} (wf : t.WF = true) :
